@@ -234,6 +234,19 @@ def gen_cases(rng, tier):
         lines = ['smart.d ' + toks(ang), 'smart.dRT ' + toks(ang + t)]
         if rng.chance(0.3):
             lines.append('smart.d2 ' + toks(rand_angles(rng) + ang))
+        if rng.chance(0.3):
+            # a history on ONE object ending at `ang` (whose fresh-object matrices were printed by `smart.d` above): constructor /
+            # init through both overload families (three scalars / one Eigen::Vector3d), earlier triples re-issued bit-identically
+            # (seeded change c12c: init(Vector3d) returns early when given the angles it was LAST given; init(x, y, z) and the
+            # constructors do not update that record)
+            pool = [ang, rand_angles(rng)]
+            steps = [(float(rng.below(4)), rng.choice(pool))]
+            for _ in range(rng.int(1, 5)):
+                if rng.chance(0.3):
+                    pool.append(rand_angles(rng))
+                steps.append((float(rng.choice([2, 3])), rng.choice(pool)))
+            steps.append((float(rng.choice([2, 3])), ang))
+            lines.append('smart.hist ' + ' '.join(toks([k] + list(a3)) for k, a3 in steps))
         cases.append({'name': 'smart-%d' % i, 'lines': lines, 'meta': {}})
     # --- (c): pose covariance
     n = 500 if quick else 25000
@@ -323,7 +336,7 @@ def compare(case, li, op, impl, model):
     if name == 'smart.d':
         return len(gi) == 2 and len(gm) == 2 and len(gi[0]) == 36 and _close(gi[0], gm[0], 1e-14) and \
             len(gi[1]) == 27 and _close(gi[1], gm[1], 1e-8)
-    if name == 'smart.d2':
+    if name in ('smart.d2', 'smart.hist'):
         return len(gi) == 1 and len(gi[0]) == 36 and _close(gi[0], gm[0], 1e-14)
     if name == 'smart.dRT':
         args = [tok_val(t) for t in op.split()[1:]]
@@ -361,6 +374,7 @@ def oracle(case, out, stats):
     if case['lines'] and case['lines'][0].startswith('lsh.'):
         return oracle_history(case, out, stats)
     fails = []
+    fresh_smart = None          # R + three derivative matrices of the fresh object of the last `smart.d` line
     for line, o in zip(case['lines'], out):
         tk = line.split()
         op = tk[0]
@@ -379,6 +393,7 @@ def oracle(case, out, stats):
             continue
         if op == 'smart.d':
             ang = [tok_val(t) for t in tk[1:4]]
+            fresh_smart = list(g[0][:36])
             pred = spurious_terms(*ang)
             for k in range(3):
                 rep = mat(g[0], 3, 3, 9 + 9 * k)
@@ -398,6 +413,14 @@ def oracle(case, out, stats):
                         % (AXES[k], d, pred[k], ang), site='SmartRotation3D::dRdAngleAround%sAxis' % AXES[k], axis=AXES[k])
         elif op == 'smart.d2':
             pass      # history independence is a matter of the correspondence check (model: stateless)
+        elif op == 'smart.hist':
+            # the matrices are functions of the angles: an object brought to `ang` through any history reports what the fresh
+            # object of the preceding `smart.d ang` line reported (R and the three derivative matrices, 36 numbers)
+            stats['smart_histories_checked'] = stats.get('smart_histories_checked', 0) + 1
+            if fresh_smart is None or len(g[0]) != 36 or maxabs([[g[0][i] - fresh_smart[i] for i in range(36)]]) > 1e-12:
+                bad('smartrotation-history', 'after a history of constructor / init calls ending at the angles of the preceding smart.d line the '
+                    'object does not report the matrices of a fresh object at those angles (max difference %.3g)'
+                    % (maxabs([[g[0][i] - fresh_smart[i] for i in range(36)]]) if fresh_smart is not None and len(g[0]) == 36 else float('nan')))
         elif op == 'smart.dRT':
             v = [tok_val(t) for t in tk[1:7]]
             ang, t = v[:3], v[3:]
